@@ -4,6 +4,7 @@ import (
 	"fmt"
 	"os"
 	"path/filepath"
+	"sync"
 	"sync/atomic"
 
 	"github.com/RoaringBitmap/roaring/v2"
@@ -16,10 +17,16 @@ import (
 var Plugin = &zap.ZapPlugin{}
 
 // Scratch directory for segment files; one per process, removed by the test main.
-var scratchDir string
+var (
+	scratchMu  sync.Mutex
+	scratchDir string
+)
 var fileSeq int64
 
+// ScratchDir is safe for concurrent use (stress stages create files from several goroutines).
 func ScratchDir() string {
+	scratchMu.Lock()
+	defer scratchMu.Unlock()
 	if scratchDir == "" {
 		base := os.Getenv("VERIF_SCRATCH")
 		if base == "" {
@@ -35,6 +42,8 @@ func ScratchDir() string {
 }
 
 func CleanupScratch() {
+	scratchMu.Lock()
+	defer scratchMu.Unlock()
 	if scratchDir != "" {
 		os.RemoveAll(scratchDir)
 		scratchDir = ""
